@@ -205,7 +205,7 @@ def stringform_applies(rnd, tier):
     progs = []
     for t in sorted(dims):
         for d in dims[t]:
-            for fn in ('sum', 'min', 'max', 'mean'):
+            for fn in ('sum', 'min', 'max', 'mean', 'std'):
                 args = {'funcs': [{'d': d, 'kind': 'reducer', 'f': fn}],
                         'via': 'reduce_dim'}
                 if t == 'T9' or rnd.random() < 0.5:
